@@ -41,7 +41,7 @@ def ob_query_result(p0: bool, k0: int, t0: int, g0: int, h0: int, p1: bool, k1: 
     pre: SHAPE in (1, 4) or not fa
     pre: SHAPE in (2, 3) or (fv1 == 0 and fv2 == 0)
     pre: SHAPE in (2, 3) or (g0 == 0 and h0 == 0 and g1 == 0)
-    pre: THOROUGH or h0 == 0 or SHAPE == 2
+    pre: h0 == 0 or SHAPE == 2 or (THOROUGH and SHAPE != 3)
     pre: THOROUGH or SHAPE == 0 or (since is None)
     pre: SHAPE in (0, 3, 4) or (k0 == 0 and k1 == 0)
     pre: SHAPE in (1, 4) or (not p0 and not p1)
@@ -51,7 +51,7 @@ def ob_query_result(p0: bool, k0: int, t0: int, g0: int, h0: int, p1: bool, k1: 
     pre: SHAPE != 2 or (until is None and h0 < 2 and g1 < 3 and (not SPLIT_TWO or (g0 in (1, 2) and g1 in (1, 3) and fv1 == 0)))
     pre: SHAPE != 2 or two == SPLIT_TWO
     pre: SHAPE != 3 or (g0 < 3 and g1 < 2 and fv1 < 2 and (limit == 3 or (THOROUGH and limit == 1)))
-    pre: THOROUGH or SHAPE != 3 or (until is None and not p0 and not p1)
+    pre: SHAPE != 3 or (until is None and not p0 and not p1)
     post: _.startswith("ok")
     """
     logging.disable(logging.CRITICAL)
